@@ -97,6 +97,17 @@ pub fn run(o: &Opts) {
                    pt(ie.start_position()), pt(ie.old_end_position()), pt(ie.new_end_position())],
               &format!("accept_edit lang={lang} pos={pos} del={del} ins={ins:?}"));
           }
+          // searches before the edit (whatever the document remembers about itself must not survive the edit)
+          let kinds_before: std::collections::BTreeSet<String> = nodes.iter().filter(|n| n.is_named()).map(|n| n.kind().to_string()).collect();
+          {
+            use ast_grep_core::matcher::KindMatcher;
+            if let Some(k) = kinds_before.iter().next() {
+              if let Ok(km) = KindMatcher::try_new(k, lang) {
+                let _ = doc.root().find(&km);
+                let _ = doc.root().find_all(&km).count();
+              }
+            }
+          }
           let r = catch_unwind(AssertUnwindSafe(|| doc.edit(Edit::<String> { position: pos, deleted_length: del, inserted_text: ins.as_bytes().to_vec() }).is_ok()));
           steps.push(json!({"pos": pos, "del": del, "ins": ins}));
           out.checked();
@@ -122,6 +133,43 @@ pub fn run(o: &Opts) {
               json!({"stream": "c10-tree", "lang": lang.to_string(), "source": src, "steps": steps}));
             break;
           }
+          // searching the edited document = searching the fresh parse: kinds that the edit introduced first
+          {
+            use ast_grep_core::matcher::KindMatcher;
+            let fresh_nodes: Vec<N> = corpus::all_nodes(fresh.root());
+            let kinds_after: std::collections::BTreeSet<String> = fresh_nodes.iter().filter(|n| n.is_named()).map(|n| n.kind().to_string()).collect();
+            let mut probe: Vec<String> = kinds_after.difference(&kinds_before).cloned().collect();
+            if !probe.is_empty() {
+              out.count("edit:introduces-a-new-kind");
+            }
+            probe.extend(kinds_after.iter().take(3).cloned());
+            for k in probe.iter().take(6) {
+              let Ok(km) = KindMatcher::try_new(k, lang) else { continue };
+              let a: Vec<(usize, usize)> = doc.root().find_all(&km).map(|m| (m.range().start, m.range().end)).collect();
+              let b: Vec<(usize, usize)> = fresh.root().find_all(&km).map(|m| (m.range().start, m.range().end)).collect();
+              let fa = doc.root().find(&km).map(|m| (m.range().start, m.range().end));
+              let fb = fresh.root().find(&km).map(|m| (m.range().start, m.range().end));
+              out.checked();
+              if a != b || fa != fb {
+                out.oracle_fail("", &format!("{lang}: after {} edit(s) a search for kind `{k}` in the edited document finds {} node(s) (first {:?}), in a fresh parse of the same text {} (first {:?}); steps {:?}", step + 1, a.len(), fa, b.len(), fb, steps),
+                  json!({"stream": "c10-search", "lang": lang.to_string(), "source": src, "steps": steps, "kind": k}));
+                break;
+              }
+            }
+            // and a pattern cut from the fresh tree
+            let ing2 = harvest(lang, &fresh_nodes, &mut rng);
+            if let Some((pt, None)) = ing2.patterns.first().cloned() {
+              if let Ok(Ok(p)) = catch_unwind(AssertUnwindSafe(|| Pattern::try_new(&pt, lang))) {
+                let a: Vec<(usize, usize)> = doc.root().find_all(&p).map(|m| (m.range().start, m.range().end)).collect();
+                let b: Vec<(usize, usize)> = fresh.root().find_all(&p).map(|m| (m.range().start, m.range().end)).collect();
+                out.checked();
+                if a != b {
+                  out.oracle_fail("", &format!("{lang}: after {} edit(s) pattern {pt:?} finds {} node(s) in the edited document and {} in a fresh parse of the same text; steps {:?}", step + 1, a.len(), b.len(), steps),
+                    json!({"stream": "c10-search", "lang": lang.to_string(), "source": src, "steps": steps, "pattern": pt}));
+                }
+              }
+            }
+          }
           if !sampled {
             sampled = true;
             out.sample(json!({"lang": lang.to_string(), "steps": steps, "nodes": t1.len()}));
@@ -132,5 +180,5 @@ pub fn run(o: &Opts) {
   }
   out.finish("edit histories of 1-5 steps on error-free corpus sources of all 23 languages: deletion of a node, replacement by another node's text / by multi-byte text / by text that adds lines, insertions at node \
               boundaries, replacements from real pattern matches; steps whose resulting text does not parse cleanly are skipped (counted); after every step the edited document's text must be the spliced text and its \
-              pre-order dump (kind, byte range, depth) must equal that of a fresh parse; String::accept_edit (new text and the six InputEdit fields) is a tie case for the model. non-trivial = every applied step");
+              pre-order dump (kind, byte range, depth) must equal that of a fresh parse, and searches (by kind — first the kinds the edit introduced — and by a pattern cut from the new tree, after a search before the edit) must find the same nodes in both; String::accept_edit (new text and the six InputEdit fields) is a tie case for the model. non-trivial = every applied step");
 }
